@@ -419,6 +419,7 @@ class CuckooFilter:
         list_size = len(d) - stct.size
         self._bucket_size, self.__max_cuckoo_swaps = stct.unpack(d[list_size:])  # type:ignore
         self._cuckoo_capacity = list_size // self._CUCKOO_SINGLE_INT_SIZE // self.bucket_size
+        self._error_rate = float(self._calc_error_rate())  # the error rate depends on the bucket size just loaded
 
     def _parse_buckets(self, d: ByteString) -> None:
         """parse bytes and set buckets"""
